@@ -5,7 +5,11 @@ Specification: spec/Degree.tla.
 (a) TLC builds every term of a bounded algebra of polynomial integrands step by step (one action per
     constructor: Coefficient / Argument on an element of the pool, SpatialCoordinate, CellCoordinate,
     literal, +, *, ** n, A[ii] with fixed and free indices, as_tensor, list tensors, grad, inner, dot,
-    outer, transposed; implicit index sums) and checks on every term
+    outer, transposed; implicit index sums; and, on a finished scalar integrand t, the FORM OPERATIONS
+    derivative(t*dx, tuple of Coefficients) -- whose direction is an Argument on the mixed element that
+    derivative() builds from the coefficients' elements -- and the shape derivative
+    derivative(t*dx, SpatialCoordinate, V), with the degree of the Gateaux / material derivative defined
+    compositionally in the spec: DG, DS) and checks on every term
       EstSafe    Est(t) >= TrueDeg(t)            -- with the INTENDED component walk of `indexed`
       PolyRules  the compositional degree rules against brute-force polynomial arithmetic over CQ
     With the AS-CODED walk (reference value sizes) TLC must produce the underestimate counterexample
@@ -25,6 +29,11 @@ Specification: spec/Degree.tla.
                 prime coefficients on the reference cell, pushed forward with the Piola map of a
                 concrete affine cell); cross-checked with TLC's TrueDeg
       forms     the same through compute_form_data(...).integral_data[*].integrals[*].metadata()
+    Form operations: the estimate is the one compute_form_data attaches to the derivative form; the DAG it
+    was made on (preprocess_form: Gateaux derivative expanded, shape derivative still a CoordinateDerivative
+    node, handler coordinate_derivative) is read back and evaluated by TLC (Est, TrueDeg, EstSafe), and
+    the truth is the exact degree of the integrand finally delivered -- for a shape derivative on the
+    reference cell, after pull back, integral scaling, geometry lowering and apply_coordinate_derivatives.
 """
 
 from __future__ import annotations
@@ -44,7 +53,7 @@ from ..common import MachineryError, main_wrapper
 # ufl objects)
 # --------------------------------------------------------------------------------------------
 
-ALL_OPS = ("indexed", "ctensor", "pow", "grad", "transposed", "prod", "sum", "list", "inner", "dot", "outer")
+ALL_OPS = ("indexed", "ctensor", "pow", "grad", "transposed", "prod", "sum", "list", "inner", "dot", "outer")  # (+ "variable", "gderiv", "cderiv")
 TDIM = {"interval": 1, "triangle": 2, "tetrahedron": 3}
 
 P1, P2, P3 = ["P", 1], ["P", 2], ["P", 3]
@@ -78,11 +87,19 @@ def configs(tier):
     # the reference value are different things
     V1, V2, V3 = ["vecP", 1, 2], ["vecP", 2, 2], ["vecP", 3, 2]
     symv = mk("sym-vector-subs", "triangle", 2, [["sym", [V1, V3, V2]], P1], (1,), [(2, 0)], coords=(), idx=(10,), ops=("indexed", "pow", "grad", "prod", "sum"), ascoded="fails")
+    # FORM OPERATIONS on every finished scalar integrand: derivative(t*dx, tuple of coefficients) -- the
+    # direction is an Argument on the mixed element that derivative() builds from the coefficients'
+    # elements (different degrees, scalar next to vector valued, both orders) -- and the shape derivative
+    # derivative(t*dx, x, V) with V in a vector space of degree 3 (the coordinate element has degree 1)
+    dq = mk("derivatives", "triangle", 2, [P1, P3, V2, V3], (1, 2, 3), [(1, 0)], idx=(10,), ops=("indexed", "pow", "grad", "prod", "gderiv", "cderiv"), derivs=[(1, 2), (2,), (3, 2)], dirs=(4,))
+    # (quick: scalar coefficients P1, P3 in both orders)
+    dquick = mk("derivatives", "triangle", 2, [P1, P3, V3], (1, 2), [(1, 0)], idx=(10,), ops=("indexed", "pow", "grad", "prod", "gderiv", "cderiv"), derivs=[(1, 2), (2, 1)], dirs=(3,))
     if tier == "quick":
         # (few, small TLC runs: on the shared machine a JVM start costs seconds)
         return [
             imm,
             symv,
+            dquick,
             # symmetric element with different sub-element degrees + nested mixed element, low degrees:
             # also validates the degree rules by polynomial arithmetic (CQ's range)
             mk("sym-nested-poly", "triangle", 2, [["sym", [P1, P2, P1]], ["mixed", [["mixed", [["vecP", 1, 2], P1]], P2]]], (1, 2), [(1, 0), (2, 1)], coords=(), idx=(10,), ops=("indexed", "pow", "grad", "prod", "sum", "list", "inner"), poly=True, polymax=5, ascoded="fails"),
@@ -97,7 +114,7 @@ def configs(tier):
         # covariant Piola (N1curl-like) next to a nested mixed element on the immersed triangle, trial and test
         mk("immersed-n1-nested", "triangle", 3, [["mixed", [P1, ["N1", 2], ["mixed", [["vecP", 1, 2], P1]]]]], (1,), [(1, 0), (1, 1)], coords=("x", "X"), ops=small + ("dot",), ascoded="fails"),
         # interval in R and in R^2, tetrahedron
-        mk("interval", "interval", 1, [["mixed", [["RT", 2], P1, ["vecP", 3, 2]]], P2], (1, 2), [(1, 0)], coords=("x", "X")),
+        mk("interval", "interval", 1, [["mixed", [["RT", 2], P1, ["vecP", 3, 2]]], P2], (1, 2), [(1, 0)], coords=("x", "X", "const"), ops=ALL_OPS + ("variable",)),
         mk("interval-immersed", "interval", 2, [["mixed", [["RT", 3], P1]], ["mixed", [P2, ["N1", 1]]]], (1, 2), [(2, 0)], ascoded="fails"),
         # symmetric elements with vector valued sub-elements, as coefficient and as argument, with a
         # permuted symmetry map next to the usual one
@@ -108,6 +125,18 @@ def configs(tier):
         # mixed elements inside a symmetric element; a block of rank 1 without any symmetry
         mk("sym-in-mixed-in-sym", "triangle", 2, [["mixed", [["sym", [P2, P3, P2]], P1]], ["sym", [["mixed", [P1, P2]], ["mixed", [P3, P1]], ["mixed", [P2, P2]]]], ["sym", [V2, V1], [2], [0, 1]]], (1, 2, 3), [(1, 0)], coords=(), idx=(10,), ops=("indexed", "pow", "grad", "prod", "sum", "list"), ascoded="fails"),
         mk("tetrahedron", "tetrahedron", 3, [["mixed", [["RT", 2], P1, ["N1", 3]]], ["sym", [P2, P2, P2]]], (1, 2), [(1, 0)], ops=small + ("ctensor", "dot")),
+        # form operations (see dq): with sums (the maximum over the terms of a sum masks an underestimated term),
+        # a Constant and labelled sub-expressions (ufl.variable) in the integrands
+        dict(dq, ops=["indexed", "pow", "grad", "prod", "sum", "variable", "gderiv", "cderiv"], coords=["x", "const"]),
+        # tuples with Piola mapped and mixed members on the immersed triangle (the built element then has a
+        # MixedPullback; physical sizes 3, reference sizes 2),
+        mk("derivatives-immersed", "triangle", 3, [["RT", 3], P1, ["mixed", [["N1", 2], P2]]], (1, 2, 3), [(2, 0)], idx=(10,), ops=("indexed", "pow", "grad", "prod", "sum", "gderiv"), derivs=[(2, 1), (1, 3), (3, 2, 1)], ascoded="fails"),
+        # with symmetric and mixed members; shape derivatives of integrands with symmetric / mixed coefficients,
+        mk("derivatives-sym", "triangle", 2, [["sym", [P1, P3, P2]], P1, ["mixed", [V2, P3]], V3], (1, 2, 3), [(2, 0)], idx=(10,), ops=("indexed", "pow", "grad", "prod", "sum", "gderiv", "cderiv"), derivs=[(2, 1), (1, 3), (3, 2)], dirs=(4,), ascoded="fails"),
+        # on an interval (directions of degree 3 and 2; the model's degree of a shape derivative is only a bound there)
+        mk("derivatives-interval", "interval", 1, [P1, P3, ["vecP", 3, 1], ["vecP", 2, 1]], (1, 2), [(1, 0)], coords=("x", "X"), idx=(10,), ops=("indexed", "pow", "grad", "prod", "sum", "gderiv", "cderiv"), derivs=[(1, 2), (2, 1)], dirs=(3, 4)),
+        # and on a tetrahedron with a Piola mapped coefficient in the shape derivative
+        mk("derivatives-tetrahedron", "tetrahedron", 3, [P1, ["RT", 2], ["vecP", 3, 3]], (1, 2), [(1, 0)], idx=(10,), ops=("indexed", "pow", "grad", "prod", "gderiv", "cderiv"), derivs=[(1, 2)], dirs=(3,)),
     ]
 
 
@@ -332,6 +361,8 @@ def fmt(t, cfg=None):
         return "[" + ", ".join(fmt(x) for x in a) + "]"
     if op == "ident":
         return "I"
+    if op == "const":
+        return "c"
     if op == "gderiv":
         W = cfg["derivs"][mi[0] - 1] if cfg else None
         return f"derivative({fmt(a[0])}*dx, {'(' + ', '.join('f%d' % n for n in W) + ')' if W else 'tuple #%d' % mi[0]})"
@@ -512,6 +543,7 @@ class Env:
         self.arg_of = {a: k for k, a in self.arg.items()}
         self.x = ufl.SpatialCoordinate(self.mesh)
         self.X = CellCoordinate(self.mesh)
+        self.const = ufl.Constant(self.mesh)
         self.idx = {k: Index() for k in range(10, 18)}
         self.name_of = {i.count(): k for k, i in self.idx.items()}
         self._built = {}
@@ -625,6 +657,8 @@ class Env:
             return self.x
         if op == "X":
             return self.X
+        if op == "const":
+            return self.const
         if op == "lit":
             return IntValue(n)
         if op == "isum":
@@ -658,13 +692,15 @@ class Env:
             return ufl.outer(o[0], o[1])
         if op == "transposed":
             return ufl.transpose(o[0])
+        if op == "variable":
+            return ufl.variable(o[0])
         raise MachineryError(f"no builder for {op}")
 
     # ---- real expression -> term (one node per real node) ----
     def readback(self, e):
         from ufl.classes import Argument, CellCoordinate, Coefficient, ComponentTensor, Dot, FixedIndex, Grad, Indexed, IndexSum, Inner, IntValue, ListTensor, Outer, Power, Product, SpatialCoordinate, Sum, Transposed, Zero
 
-        from ufl.classes import Conj, CoordinateDerivative, Identity, Index, MultiIndex
+        from ufl.classes import Conj, CoordinateDerivative, Identity, Index, MultiIndex, Variable
         from ufl.corealg.traversal import unique_pre_traversal
 
         # indices made by the builder keep their names; indices made by ufl itself get unused names
@@ -693,6 +729,10 @@ class Env:
                 return ["x", 0, [], []]
             if isinstance(e, CellCoordinate):
                 return ["X", 0, [], []]
+            if e is self.const:
+                return ["const", 0, [], []]
+            if isinstance(e, Variable):
+                return ["variable", 0, [], [rb(e.ufl_operands[0])]]
             if isinstance(e, IntValue):
                 if e.value() < 0:
                     raise Unsupported("negative literal")
@@ -760,6 +800,8 @@ class Env:
             return self.xp[comp[0]]
         if isinstance(e, CellCoordinate):
             return self.Xp[comp[0]]
+        if e is self.const:
+            return {(0,) * nv: 7919}
         if isinstance(e, IntValue):
             return {(0,) * nv: int(e.value())} if e.value() else {}
         if isinstance(e, Zero):
@@ -931,11 +973,15 @@ def culprit(e, expr):
                 if any(r != p for r, p in sizes):
                     return "C18:underestimate:indexed-mixed-physical-vs-reference-size", what + f" (sub-element (reference, physical) sizes {sizes})"
                 return "C18:underestimate:indexed-mixed", what
+            if isinstance(node, (Coefficient, Argument)) and type(node.ufl_element()).__name__ == "_MixedElement":
+                subs = [s.embedded_superdegree for s in node.ufl_element().sub_elements]
+                return f"C18:underestimate:{handler}:mixed-element-built-by-derivative", what + f" (the mixed element derivative() builds for a tuple of coefficients: embedded_superdegree {node.ufl_element().embedded_superdegree}, sub-elements {subs})"
             return f"C18:underestimate:{handler}", what
     return "C18:underestimate:unlocated", "no single node underestimates on its own"
 
 
 ROOTS = ("gderiv", "cderiv")
+ROOT_ROUTE = "compute_form_data(derivative(form, ...))"
 SHAPE_KW = dict(do_apply_function_pullbacks=True, do_apply_integral_scaling=True, do_apply_geometry_lowering=True)
 
 
@@ -1167,7 +1213,7 @@ def judge(v, cfg, lines, obs, model_of_rb):
                 v.drift.append((t, f"real estimate {real}, as-coded model {m_ref}, intended model {m_phys}"))
         # --- the property
         if real < true:
-            v.under.append((line, o, "estimate_total_polynomial_degree"))
+            v.under.append((line, o, ROOT_ROUTE if o.get("root") else "estimate_total_polynomial_degree"))
         elif real > true:
             v.over += 1
         bad = False
@@ -1199,7 +1245,7 @@ def report_under(ctx, cfg, line, o, route):
         return
     t = line[0]
     shown = min(d for d, _ in o["form"]) if form else o["real"]
-    what = f"{route} of {fmt(t)} on {cfg['name']} (elements {cfg['elems']}, {cfg['cell']} in R^{cfg['gdim']}) is {shown} but the integrand has degree {o['true']}: {o.get('form_why' if form else 'why', '')}"
+    what = f"{route} of {fmt(t, cfg)} on {cfg['name']} (elements {cfg['elems']}, {cfg['cell']} in R^{cfg['gdim']}) is {shown} but the integrand has degree {o['true']}: {o.get('form_why' if form else 'why', '')}"
     ctx.violation(fp, what, {"config": cfg, "term": t, "route": route, "observed": shown, "true_degree": o["true"], "model": {"est_as_coded": line[1], "est_intended": line[2], "TrueDeg": line[3]}})
 
 
@@ -1262,6 +1308,10 @@ def run(ctx, args):
     ctx.rule = (
         "TLC builds every term of the bounded algebra (terminals: Coefficient/Argument on each pool element, x, X, literal; "
         "constructors +, *, **n, A[fixed and free indices], as_tensor, [a, b], grad, inner, dot, outer, transposed, implicit index sums; "
+        "form operations on every finished scalar integrand t of the `derivatives` pools: derivative(t*dx, tuple of coefficients of different degrees) "
+        "(direction = Argument on the mixed element built by derivative()) and the shape derivative derivative(t*dx, x, V), V of degree 3 (2 on the interval), "
+        "estimated through compute_form_data, the estimated DAG read back and evaluated by TLC, the delivered integrand evaluated exactly; "
+        "thorough also: a Constant terminal and ufl.variable(e) in the integrands; derivative tuples with Piola mapped / mixed / symmetric members (immersed triangle), shape derivatives on an interval and a tetrahedron; "
         f"depth <= {2 if quick else 3}, second operands of depth <= 1) for each pool (mixed [vecP2,P1]; [RT3-like, P1] on an immersed triangle; nested mixed; "
         "symmetric 2x2 with equal and with different sub-element degrees; symmetric with VECTOR valued sub-elements of different degrees (physical shape (2,2,2)); "
         "thorough: N1curl-like in nested mixed, interval in R and R^2, tetrahedron, trial+test, symmetric with a permuted symmetry map / Piola mapped sub-elements on the immersed triangle / "
@@ -1274,6 +1324,7 @@ def run(ctx, args):
     ctx.assume("affine simplex cells only (coordinate element degree 1): Piola maps and the Jacobian are constant matrices; one concrete generic affine cell per (cell, gdim)")
     ctx.assume("polynomial integrands only: no division, abs, conditionals, math functions, non-integer / negative / non-literal exponents, quadrature or real elements")
     ctx.assume("the true degree is that of ONE exact member per space (full reference polynomials with distinct prime coefficients, pushed forward); TLC's TrueDeg (the supremum) must coincide with it on coordinate-free terms")
+    ctx.assume("shape derivatives: direction V in a vector Lagrange space (identity pull back) given as an Argument; non-immersed affine cells; compute_form_data with function pullbacks, integral scaling and geometry lowering (which apply_coordinate_derivatives requires); the spec's degree of a shape derivative is an upper bound, demanded to be attained only for generic data without a moved gradient of the coordinates and not on intervals")
     ctx.assume("arguments occur so that the integrand is a valid multilinear form (disjoint argument sets in products, equal sets in sums)")
     import ufl
 
@@ -1341,6 +1392,10 @@ def conform(ctx, cfg, job, asjob, form_every, submit):
     idle = (set(cfg["ops"]) | {"coef"} | ({"isum"} if {"prod", "indexed"} <= set(cfg["ops"]) else set())) - roots
     if idle:
         raise MachineryError(f"Degree[{cfg['name']}]: constructors never applied: {sorted(idle)}")
+    used = {(l[0][0], l[0][2][0]) for l in lines if l[0][0] in ROOTS}
+    unused = ({("gderiv", k) for k in range(1, len(cfg["derivs"]) + 1) if "gderiv" in cfg["ops"]} | {("cderiv", n) for n in cfg["dirs"] if "cderiv" in cfg["ops"]}) - used
+    if unused:
+        raise MachineryError(f"Degree[{cfg['name']}]: form operations never applied: {sorted(unused)}")
     if cfg["poly"]:
         npoly = sum(1 for l in lines if l[4] != -2)
         ctx.count("terms_validated_by_polynomial_arithmetic_in_TLC", npoly)
@@ -1390,6 +1445,8 @@ def settle(ctx, state, total):
     ctx.count("form_route_processed_integrand_not_evaluated", v.form_unevaluated)
     ctx.count("form_route_preprocessing_changed_the_degree", v.form_degree_changed)
     ctx.count("overestimates", v.over)
+    ctx.count("derivative_forms_estimated_through_compute_form_data", v.roots)
+    ctx.count("derivative_forms_vanishing_identically", v.vanished)
     pool = json.dumps(cfg["elems"]) + cfg["cell"] + str(cfg["gdim"])
     for l in lines:
         if depth_of(l[0]) >= 1 and any(n[0] in ("coef", "arg") for n in walk(l[0])):
@@ -1458,10 +1515,10 @@ def replay(ctx, doc):
     import ufl
 
     print("ufl      :", ufl.__file__)
-    expr = e.build(t)
+    expr = derived_form(e, t)[0] if t[0] in ROOTS else e.build(t)
     o = examine(e, [t, None, None, None, -2], True)
     print("pool     :", cfg["name"], cfg["elems"], cfg["cell"], "in R^%d" % cfg["gdim"])
-    print("term     :", fmt(t))
+    print("term     :", fmt(t, cfg))
     print("real expr:", str(expr))
     print("model    :", r.get("model"))
     print("estimate :", o["real"], " through compute_form_data [estimate, exact degree of the processed integrand]:", o.get("form"))
@@ -1574,6 +1631,29 @@ def selftest(ctx):
         raise MachineryError(f"selftest: the unmodified code does not conform on sym-vector-subs: under={len(base.under)} cross={base.cross[:2]} drift={base.drift[:2]}")
     m = verdict(sl, {"_sub_element_of_component": by_offset}, symv, env_of(symv))
     rejected["mutant symmetric sub-element index read as reference offset"] = [f"{len(m.under)} underestimates {fps(m)}", f"{len(m.drift)} binding failures"] if m.under and m.drift and "C18:underestimate:indexed-symmetric-nonscalar-sub-elements" in fps(m) else []
+    # form operations (the quick pool `derivatives`): mutants of the two places the degree of the direction
+    # of a derivative enters the estimate, and a corrupted model degree of a Gateaux derivative
+    dcfg = next(c for c in configs("quick") if c["name"] == "derivatives")
+    j = run_jobs(ctx, [Job("dump:selftest-derivatives", dcfg, workers=2)])["dump:selftest-derivatives"]
+    tlc.require_ok(j.res, "Degree[derivatives]")
+    dl = [l for l in lines_of(j) if l[0][0] in ROOTS and l[0][3][0][0] != "prod"]
+    de = env_of(dcfg)
+    base = verdict(dl, None, dcfg, de)
+    if base.under or base.cross or base.drift or base.roots != len(dl):
+        raise MachineryError(f"selftest: the unmodified code does not conform on derivatives: under={len(base.under)} cross={base.cross[:2]} drift={base.drift[:2]} roots={base.roots}/{len(dl)}")
+    m = verdict(dl, {"coordinate_derivative": lambda self, v, i, b, d, cd: self._add_degrees(v, i, b)}, dcfg, de)
+    rejected["mutant coordinate_derivative adds the degree of the coordinates"] = [f"{len(m.under)} underestimates {fps(m)}"] if m.under and "C18:underestimate:coordinate_derivative" in fps(m) else []
+
+    def arg_min(self, v):
+        el = v.ufl_element()
+        return min(x.embedded_superdegree for x in el.sub_elements) if type(el).__name__ == "_MixedElement" else el.embedded_superdegree
+
+    m = verdict(dl, {"argument": arg_min}, dcfg, de)
+    rejected["mutant argument on the mixed element built by derivative() = min over the sub-elements"] = [f"{len(m.under)} underestimates {fps(m)}"] if m.under and "C18:underestimate:argument:mixed-element-built-by-derivative" in fps(m) else []
+    k = next(i for i, l in enumerate(dl) if l[0][0] == "gderiv" and not has_coord(l[0]) and l[3] >= 2)
+    ls = copy.deepcopy(dl[k : k + 1])
+    ls[0][3] -= 1
+    rejected["corrupt TrueDeg of a Gateaux derivative -1"] = verdict(ls, None, dcfg, de).cross[:1]
     ctx.traces(len(lines))
     ctx.evaluated(len(lines) * 6)
     ctx.rule = "selftest: in-process mutants of SumDegreeEstimator, corrupted model values and a corrupted exact evaluation must all be rejected"
